@@ -70,11 +70,11 @@ func main() {
 	root, _ := filepath.Abs(*repo)
 
 	if *mutant != "" {
-		runMutant(root, prop, *mutant, false)
+		runMutant(root, *verif, prop, *mutant, false)
 		return
 	}
 	if *benign != "" {
-		runMutant(root, prop, *benign, true)
+		runMutant(root, *verif, prop, *benign, true)
 		return
 	}
 
@@ -297,7 +297,8 @@ func writeEvidence(path string, prop *core.Property, tier string, seed int, all 
 }
 
 // runMutant evaluates one mutant in this process and prints a JSON result.
-func runMutant(root string, prop *core.Property, name string, benign bool) {
+func runMutant(root, verif string, prop *core.Property, name string, benign bool) {
+	findings, _ := core.LoadFindings(filepath.Join(verif, "known_findings.jsonl"))
 	var m *core.Mutant
 	list := prop.Mutants
 	if benign {
@@ -346,6 +347,9 @@ func runMutant(root string, prop *core.Property, name string, benign bool) {
 	for _, o := range obls {
 		if o.Status == core.Discharged {
 			continue
+		}
+		if benign && core.MatchKnown(findings, prop.ID, &o) != nil {
+			continue // a known finding of the unchanged tree is not an alarm of the variant
 		}
 		rep = append(rep, o.Rule+" "+o.Construct)
 		if (m.ExpectRule == "" || o.Rule == prop.ID+"."+m.ExpectRule) && strings.Contains(o.Construct, m.ExpectConstruct) {
@@ -443,7 +447,7 @@ func printManifest(verif string) {
 	for _, s := range served {
 		claimed[s] = true
 	}
-	var na2 []map[string]string
+	na2 := []map[string]string{}
 	for _, e := range na {
 		if !claimed[e["property_id"]] {
 			na2 = append(na2, e)
